@@ -58,6 +58,17 @@ func envelopeGen(r *rand.Rand, n int, tier string, emit func(Case)) {
 		}
 		emit(c)
 	}
+	for i := 0; i < bigExtra(n); i++ { // large sizes
+		l := bigLattice(r)
+		c := Case{"kind": "geom", "wa": l.bigAny().AsText(), "wb": l.bigAny().AsText()}
+		switch r.Intn(6) {
+		case 0:
+			c["t"] = l.randSimil().toCase()
+		case 1:
+			c["t"] = l.randDyadic(true).toCase()
+		}
+		emit(c)
+	}
 }
 
 func envelopeOnPanic(c Case) Event {
